@@ -145,12 +145,14 @@ def judge(ctx, case, res, mout):
 
 def check(ctx):
     for c, r, m in c01.execute(gen_cases(ctx)):
-        judge(ctx, c, r, m)
+        with ctx.guard(c):
+            judge(ctx, c, r, m)
 
 
 def replay(ctx, data):
     for c, r, m in c01.execute([data['case']], workers=1):
-        judge(ctx, c, r, m)
+        with ctx.guard(c):
+            judge(ctx, c, r, m)
 
 
 if __name__ == '__main__':
